@@ -240,9 +240,10 @@ class FormatterConfig:
 
 class MultilineArgumentDetector(FullAstVisitor):
 
-    def __init__(self, config: FormatterConfig):
+    def __init__(self, config: FormatterConfig, function_arguments: T.Optional[mparser.ArgumentNode] = None):
         self.config = config
         self.is_multiline = False
+        self.function_arguments = {id(function_arguments)}
 
     def enter_node(self, node: mparser.BaseNode) -> None:
         if node.whitespaces and '#' in node.whitespaces.value:
@@ -251,13 +252,27 @@ class MultilineArgumentDetector(FullAstVisitor):
         elif isinstance(node, mparser.StringNode) and node.is_multiline:
             self.is_multiline = True
 
+    def visit_FunctionNode(self, node: mparser.FunctionNode) -> None:
+        self.function_arguments.add(id(node.args))
+        super().visit_FunctionNode(node)
+
+    def visit_MethodNode(self, node: mparser.MethodNode) -> None:
+        self.function_arguments.add(id(node.args))
+        super().visit_MethodNode(node)
+
     def visit_ArgumentNode(self, node: mparser.ArgumentNode) -> None:
         if node.is_multiline:
             self.is_multiline = True
 
         nargs = len(node)
         if nargs and nargs == len(node.commas):
-            self.is_multiline = True
+            # A trailing comma asks for one argument per line, except the one
+            # that no_single_comma_function is going to remove: it must not
+            # decide a layout that the formatted text no longer asks for.
+            is_removed = (self.config.no_single_comma_function and nargs == 1
+                          and id(node) in self.function_arguments)
+            if not is_removed:
+                self.is_multiline = True
 
         if self.is_multiline:
             return
@@ -299,6 +314,7 @@ class TrimWhitespaces(FullAstVisitor):
         self.in_block_comments = False
         self.in_arguments = 0
         self.indent_comments = ''
+        self.function_arguments: T.Set[int] = set()
 
     def visit_default_func(self, node: mparser.BaseNode) -> None:
         self.enter_node(node)
@@ -478,6 +494,7 @@ class TrimWhitespaces(FullAstVisitor):
         self.move_whitespaces(node.rbracket, node)
 
     def visit_MethodNode(self, node: mparser.MethodNode) -> None:
+        self.function_arguments.add(id(node.args))
         super().visit_MethodNode(node)
         self.move_whitespaces(node.rpar, node)
 
@@ -503,6 +520,7 @@ class TrimWhitespaces(FullAstVisitor):
             if self.config.sort_files:
                 self.sort_arguments(node.args)
 
+        self.function_arguments.add(id(node.args))
         super().visit_FunctionNode(node)
         self.move_whitespaces(node.rpar, node)
 
@@ -564,7 +582,8 @@ class TrimWhitespaces(FullAstVisitor):
 
     def visit_ArgumentNode(self, node: mparser.ArgumentNode) -> None:
         if not node.is_multiline:
-            ml_detector = MultilineArgumentDetector(self.config)
+            function_arguments = node if id(node) in self.function_arguments else None
+            ml_detector = MultilineArgumentDetector(self.config, function_arguments)
             node.accept(ml_detector)
             if ml_detector.is_multiline:
                 node.is_multiline = True
